@@ -55,8 +55,18 @@ NegConst == UNION {{Bin(c, Neg, A), Bin(c, A, Neg), Bin(c, Neg, Cn(-2, 1))} : c 
 NumForms == {"enot", "dot"}      \* (a cn of type real holds a basic real: no exponent there; exponents are spelled in initial values, Gen_Codegen)
 Commented == {CiC("a"), CnF(3, 1, "comment"), Bin("plus", CiC("a"), CnF(3, 1, "comment")), Un("minus", CnF(-3, 1, "comment")), Bin("times", CiC("b"), CiC("c"))}
 Spellings == Commented \cup UNION {{CnF(3, 1, f), CnF(-3, 1, f), CnF(1, 2, f), Bin("plus", A, CnF(3, 1, f)), Un("minus", CnF(-3, 1, f)), Bin("power", A, CnF(2, 1, f)), Bin("minus", A, CnF(-3, 1, f))} : f \in NumForms}
+\* round 4: special exponents over a compound base under a tighter-binding parent; functions that are written as a quotient
+\* (logarithm to a base) as operands; a unary plus between two operators; a piecewise as the condition of a piece
+SpecialExps == {Cn(1, 1), Cn(1, 2), Cn(2, 1), Cn(0, 1), Cn(-1, 1)}
+PowSpecial == UNION {UNION {{Bin(p, A, Bin("power", Bin(c, B, C), e)), Bin(p, Bin("power", Bin(c, B, C), e), A)} : p \in {"times", "divide", "minus", "plus"}, c \in {"plus", "times", "minus", "divide"}} : e \in SpecialExps}
+              \cup {Un("minus", Bin("power", Bin("plus", A, B), e)) : e \in SpecialExps}
+LogBase == Qual("log", Cn(3, 1), Cn(9, 1))
+QuotientFuns == UNION {{Bin(p, A, LogBase), Bin(p, LogBase, A), Bin(p, A, Qual("root", Cn(3, 1), Cn(8, 1)))} : p \in {"divide", "times", "minus", "power", "plus"}} \cup {Un("minus", LogBase), Bin("divide", LogBase, LogBase)}
+PlusWrapped == {Bin("minus", A, Un("plus", Bin("minus", B, C))), Bin("times", A, Un("plus", Bin("plus", B, C))), Bin("divide", A, Un("plus", Bin("times", B, C))),
+                Un("minus", Un("plus", Bin("plus", A, B))), Bin("power", Un("plus", Bin("plus", A, B)), Cn(2, 1)), Bin("minus", A, Un("plus", Un("minus", B)))}
+PwCondition == {Pw(<<<<A, Pw(<<<<[op |-> "true"], Bin("lt", A, B)>>>>, [op |-> "false"])>>>>, C), Pw(<<<<A, Pw(<<<<Bin("gt", A, B), Bin("lt", A, C)>>>>, Bin("lt", B, C))>>>>, B)}
 Leaves == {A, Cn(3, 1), Cn(1, 2), Cn(-7, 1), Cn(5, 4), Un("minus", Cn(3, 1))}
-AllTrees == Arith2 \cup Nary \cup Unary2 \cup Rel1 \cup Logic2 \cup RelNest \cup Piecewise \cup Quals \cup Funs \cup RecipTrees \cup (Consts \ {N("true", <<>>), N("false", <<>>)}) \cup {[op |-> "true"], [op |-> "false"]} \cup Leaves \cup NegConst \cup Spellings
+AllTrees == Arith2 \cup Nary \cup Unary2 \cup Rel1 \cup Logic2 \cup RelNest \cup Piecewise \cup Quals \cup Funs \cup RecipTrees \cup (Consts \ {N("true", <<>>), N("false", <<>>)}) \cup {[op |-> "true"], [op |-> "false"]} \cup Leaves \cup NegConst \cup Spellings \cup PowSpecial \cup QuotientFuns \cup PlusWrapped \cup PwCondition
 QuickTrees == {t \in AllTrees : TRUE}
 Envs == <<[a |-> I(2), b |-> I(3), c |-> I(5)], [a |-> I(-3), b |-> I(2), c |-> Q(1, 2)], [a |-> I(7), b |-> I(7), c |-> I(-2)], [a |-> Q(3, 2), b |-> I(-1), c |-> I(4)]>>
 =============================================================================
